@@ -91,6 +91,10 @@ def cases(shard, tier):
                     if kind == 'str' and tail != 'plain':
                         continue
                     yield {'vrl': vrl, 'names': [name], 'seq': [[0, n, kind, tail]]}
+                    if kind == 'bytes' and tail in ('plain', '01'):
+                        # an output buffer no larger than one or two visible records: the file is flushed piecewise
+                        for ocs in (vrl, vrl + 2, 2 * vrl):
+                            yield {'vrl': vrl, 'names': [name], 'seq': [[0, n, kind, tail]], 'ocs': ocs}
     else:
         win = [0, 1, 7, 12 - oblen if 12 - oblen > 0 else 2, 13, cap - oblen + 1]
         for k in (2, 3):
@@ -222,6 +226,8 @@ def run_case(case):
     if case.get('part') in ('lfs', 'samename'):
         return run_lfs(case)
     sp = make_spec(case)
+    if case.get('ocs'):
+        sp['write']['output_chunk_size'] = case['ocs']
     # every third case of a shard is written twice with the same objects; the second file is the one that is checked
     k = (sum(n for _, n, _, _ in case['seq']) + len(case['seq'])) % 3
     twice = k != 1
